@@ -1,9 +1,11 @@
 import Hm.ChunkSys
+import Hm.ReqLaws3
 
 /-! the response parser of the repaired tree as a `Sys`, in *normalised* form: the declared-length body
     phase consumes exactly the declared bytes (the real code also swallows the rest of the delivery
-    into `trailer`; that is re-attached by `Response.attachTrailing` below).  Header-line limit `None`,
-    as `Response::new()` leaves it. -/
+    into `trailer`; that is re-attached by `Response.attachTrailing` below).  The header-line limit `hl` is
+    whatever the caller has set on `response.headers` (`None` as `Response::new()` leaves it); a dangling CR
+    is held back from the header parser (response.rs, as in request.rs). -/
 
 def rstatusStep (s : RespState) (rem : Bytes) : Res Fail RespState :=
   match findCrlf rem with
@@ -27,8 +29,8 @@ def rframing (s : RespState) (hs : List Header) (c : Nat) : Res Fail RespState :
       .ok .completePart { s with headers := hs, phase := .chunkedBody ChunkState.new } c
     else .ok .completeWhole { s with headers := hs } c
 
-def rhdrStep (s : RespState) (rem : Bytes) : Res Fail RespState :=
-  match Headers.parse none s.headers rem with
+def rhdrStep (hl : Option Nat) (s : RespState) (rem : Bytes) : Res Fail RespState :=
+  match Headers.parse hl s.headers (stripDanglingCr rem) with
   | .error e => .fail (.err (.Headers e))
   | .ok (hs, .incomplete, c) => .ok .incomplete { s with headers := hs } c
   | .ok (hs, .complete, c) => rframing s hs c
@@ -45,17 +47,17 @@ def rchunkStep (s : RespState) (cs : ChunkState) (rem : Bytes) : Res Fail RespSt
   | .ok .complete cs' n => .ok .completeWhole (dechunkRewrite ⟨true⟩ s cs') n
   | .ok .incomplete cs' n => .ok .incomplete { s with phase := .chunkedBody cs' } n
 
-def respStep (s : RespState) (rem : Bytes) : Res Fail RespState :=
+def respStep (hl : Option Nat) (s : RespState) (rem : Bytes) : Res Fail RespState :=
   match s.phase with
   | .chunkedBody cs => rchunkStep s cs rem
   | .fixedBody n => rfixedStep s rem n
-  | .headers => rhdrStep s rem
+  | .headers => rhdrStep hl s rem
   | .statusLine => rstatusStep s rem
 
 def respRank : RespPhase → Nat
   | .statusLine => 3 | .headers => 2 | .fixedBody _ => 1 | .chunkedBody _ => 1
 
-def respSys : Sys Fail RespState := { step := respStep, μ := fun s _ => respRank s.phase, oof := .oof }
+def respSys (hl : Option Nat) : Sys Fail RespState := { step := respStep hl, μ := fun s _ => respRank s.phase, oof := .oof }
 
 def RespInv (s : RespState) : Prop :=
   match s.phase with
@@ -138,10 +140,11 @@ theorem rframing_shift {s s1 : RespState} {hs : List Header} {c k : Nat}
     simp only [RespState.mk.injEq] at this
     split <;> simp [Res.shift, this, hph]
 
-theorem rhdrStep_le {s s' : RespState} {rem : Bytes} {n : Nat} {i : Internal}
-    (h : rhdrStep s rem = .ok i s' n) : n ≤ rem.length := by
+theorem rhdrStep_le {hl : Option Nat} {s s' : RespState} {rem : Bytes} {n : Nat} {i : Internal}
+    (h : rhdrStep hl s rem = .ok i s' n) : n ≤ rem.length := by
   unfold rhdrStep at h
-  cases hp : Headers.parse none s.headers rem with
+  have hsl := strip_length_le rem
+  cases hp : Headers.parse hl s.headers (stripDanglingCr rem) with
   | error e => simp [hp] at h
   | ok r =>
     obtain ⟨hs, st, c⟩ := r
@@ -150,23 +153,24 @@ theorem rhdrStep_le {s s' : RespState} {rem : Bytes} {n : Nat} {i : Internal}
     | incomplete => simp [hp] at h; omega
     | complete => simp only [hp] at h; have := (rframing_ok h).1; omega
 
-theorem rhdrStep_p1 {s s' : RespState} {rem : Bytes} {n : Nat} {i : Internal}
-    (h : rhdrStep s rem = .ok i s' n) (hi : i ≠ .incomplete) (d : Bytes) :
-    rhdrStep s (rem ++ d) = .ok i s' n := by
+theorem rhdrStep_p1 {hl : Option Nat} {s s' : RespState} {rem : Bytes} {n : Nat} {i : Internal}
+    (h : rhdrStep hl s rem = .ok i s' n) (hi : i ≠ .incomplete) (d : Bytes) :
+    rhdrStep hl s (rem ++ d) = .ok i s' n := by
   unfold rhdrStep at h ⊢
-  cases hp : Headers.parse none s.headers rem with
+  cases hp : Headers.parse hl s.headers (stripDanglingCr rem) with
   | error e => simp [hp] at h
   | ok r =>
     obtain ⟨hs, st, c⟩ := r
     cases st with
     | incomplete => simp [hp] at h; exact absurd h.1.symm hi
-    | complete => rw [(Headers.parse_append_complete hp d).1]; simpa [hp] using h
+    | complete =>
+      rw [strip_append, (Headers.parse_append_complete hp (tailOf rem d)).1]; simpa [hp] using h
 
-theorem rhdrStep_incomplete {s s' : RespState} {rem : Bytes} {n : Nat}
-    (h : rhdrStep s rem = .ok .incomplete s' n) :
-    ∃ hs, Headers.parse none s.headers rem = .ok (hs, .incomplete, n) ∧ s' = { s with headers := hs } := by
+theorem rhdrStep_incomplete {hl : Option Nat} {s s' : RespState} {rem : Bytes} {n : Nat}
+    (h : rhdrStep hl s rem = .ok .incomplete s' n) :
+    ∃ hs, Headers.parse hl s.headers (stripDanglingCr rem) = .ok (hs, .incomplete, n) ∧ s' = { s with headers := hs } := by
   unfold rhdrStep at h
-  cases hp : Headers.parse none s.headers rem with
+  cases hp : Headers.parse hl s.headers (stripDanglingCr rem) with
   | error e => simp [hp] at h
   | ok r =>
     obtain ⟨hs, st, c⟩ := r
@@ -174,15 +178,15 @@ theorem rhdrStep_incomplete {s s' : RespState} {rem : Bytes} {n : Nat}
     | incomplete => simp [hp] at h; obtain ⟨rfl, rfl⟩ := h; exact ⟨hs, rfl, rfl⟩
     | complete => simp only [hp] at h; have := (rframing_ok h).2.1; simp at this
 
-theorem rhdrStep_p2 {s s' : RespState} {rem : Bytes} {n : Nat}
-    (h : rhdrStep s rem = .ok .incomplete s' n) (d : Bytes) :
-    rhdrStep s (rem ++ d) = (rhdrStep s' (rem.drop n ++ d)).shift n := by
+theorem rhdrStep_p2 {hl : Option Nat} {s s' : RespState} {rem : Bytes} {n : Nat}
+    (h : rhdrStep hl s rem = .ok .incomplete s' n) (d : Bytes) :
+    rhdrStep hl s (rem ++ d) = (rhdrStep hl s' (rem.drop n ++ d)).shift n := by
   obtain ⟨hs, hp, rfl⟩ := rhdrStep_incomplete h
-  obtain ⟨_, hfuse⟩ := Headers.parse_append_incomplete hp d
+  obtain ⟨hc0, hfuse⟩ := Headers.parse_append_incomplete hp (tailOf rem d)
   unfold rhdrStep
-  rw [hfuse]
+  rw [strip_append, hfuse, strip_drop_append hc0]
   simp only
-  cases Headers.parse none hs (rem.drop n ++ d) with
+  cases Headers.parse hl hs ((stripDanglingCr rem).drop n ++ tailOf rem d) with
   | error e => simp [shiftConsumed, Res.shift]
   | ok r2 =>
     obtain ⟨hs2, st2, m2⟩ := r2
@@ -192,18 +196,19 @@ theorem rhdrStep_p2 {s s' : RespState} {rem : Bytes} {n : Nat}
       simp only [shiftConsumed]
       exact rframing_shift (by intro hs'; rfl)
 
-theorem rhdrStep_p3 {s : RespState} {rem : Bytes} {e : Fail}
-    (h : rhdrStep s rem = .fail e) (d : Bytes) : ∃ e', rhdrStep s (rem ++ d) = .fail e' := by
+theorem rhdrStep_p3 {hl : Option Nat} {s : RespState} {rem : Bytes} {e : Fail}
+    (h : rhdrStep hl s rem = .fail e) (d : Bytes) : ∃ e', rhdrStep hl s (rem ++ d) = .fail e' := by
+  have hns := strip_tail_nostraddle rem d
   unfold rhdrStep at h ⊢
-  cases hp : Headers.parse none s.headers rem with
+  cases hp : Headers.parse hl s.headers (stripDanglingCr rem) with
   | error e0 =>
-    obtain ⟨e1, he1⟩ := Headers.parse_append_error hp d (Or.inl rfl)
-    rw [he1]; exact ⟨_, rfl⟩
+    obtain ⟨e1, he1⟩ := Headers.parse_append_error hp (tailOf rem d) (Or.inr hns)
+    rw [strip_append, he1]; exact ⟨_, rfl⟩
   | ok r =>
     obtain ⟨hs, st, c⟩ := r
     cases st with
     | incomplete => simp [hp] at h
     | complete =>
-      rw [(Headers.parse_append_complete hp d).1]
+      rw [strip_append, (Headers.parse_append_complete hp (tailOf rem d)).1]
       simp only [hp] at h ⊢
       exact ⟨e, h⟩
